@@ -65,6 +65,12 @@ def main():
     nshards = max(1, min(nshards, os.cpu_count() or 1, 16))
     timeout = budget.get("timeout", 1500 if tier == "quick" else 6 * 3600)
 
+    # replay files of earlier runs of this property are stale now
+    import glob
+
+    for old in glob.glob(os.path.join(VERIF, "replays", f"{prop}-*.json")):
+        os.remove(old)
+
     work = os.path.join(VERIF, ".work", f"{prop}-{tier}-{os.getpid()}")
     shutil.rmtree(work, ignore_errors=True)
     os.makedirs(work)
@@ -133,7 +139,10 @@ def main():
         for c, v in r["classes"].items():
             classes[c] = classes.get(c, 0) + v
         for c, v in r["stats"].items():
-            stats[c] = stats.get(c, 0) + v
+            if c.startswith("max_"):
+                stats[c] = max(stats.get(c, 0), v)
+            else:
+                stats[c] = stats.get(c, 0) + v
         for c, v in r["known_hits"].items():
             known_hits[c] = known_hits.get(c, 0) + v
         if len(samples) < 6:
